@@ -139,6 +139,24 @@ example : tfrBound cyclicEvaluated [] 1 = 5 := by decide
 example : (tfr false cyclicEvaluated 5 [] 1).show = "(A (A any))" := by decide
 example : (tfr false [.leaf 0, .fref 3 false, .app [0, 1], .app [2, 1]] 9 [] 3).show = "(A (A L0 (A (A L0 any) any)) (A (A L0 any) any))" := by decide
 
+/-! ## 1c. constant folding: every site that executes an operation on known values catches everything -/
+
+/-- **Regenerated obligation**: every `try:` in name_check_visitor / implementation / format_strings / boolability / predicates /
+value whose body executes an operation on statically known values has a handler for `Exception` (or is on the
+explicit waiver list `foldWaivers`, each with its reason). Narrowing a clause (`except (TypeError, ValueError)` around
+`format(...)`: a valid spec raises `OverflowError` on `f"{-1:c}"`) breaks this. -/
+theorem fold_sites_catch_all : foldSitesOk Gen.foldSites = true := by decide
+
+/-- … and none of the pinned guarded sites has lost its `try:`. -/
+theorem fold_sites_present : foldSitesPresent Gen.foldSites = true := by decide
+
+/-- … and no fold expression outside every `try:` has appeared that the pinned tree did not have. -/
+theorem unguarded_folds_known : unguardedFoldsKnown Gen.unguardedFolds = true := by decide
+
+/-! Non-vacuity: the predicate does reject the seeded narrowing. -/
+example : foldSitesOk [("name_check_visitor.py", "NameCheckVisitor._visit_single_formatted_value", ["TypeError", "ValueError"])] = false := by decide
+example : foldSitesPresent [] = false := by decide
+
 /-! ## 2. diagnostics are well-formed (`BaseNodeVisitor.show_error`) -/
 
 /-- The live registry has a non-empty description for every code and contains the two codes the
